@@ -36,7 +36,7 @@ func init() {
 		Run:          Run,
 		MaxSteps:     600000,
 		YieldFiles:   []string{"httpproxy/server.go"},
-		QuickRuns:    3000,
+		QuickRuns:    8000,
 		ThoroughSecs: 600,
 		Rule: "one run = one proxy connection: a generated sequence of 1..20 requests (methods, absolute/origin-form targets, end-to-end and connection-specific " +
 			"header sets with Connection nominations and casing, bodies by Content-Length or chunked with trailers, Expect: 100-continue, proxy credentials, " +
@@ -544,7 +544,7 @@ func (r *run) clientReader(c *simnet.TCPConn) {
 				switch {
 				case r.originFault || rq.resp.fault != 0 || rq.disp == dOptional:
 					lenientEnd()
-				case src.err != nil && src.err != io.EOF && m == nil:
+				case src.err != nil && src.err != io.EOF && (m == nil || m.bad == ""):
 					// a reset, not an orderly end: the proxy closed while pipelined requests were still arriving; a
 					// reset may destroy responses in flight (RFC 9112 §9.6), which is the transport's doing
 					s.Probe("c16.obs.reset-before-all-responses")
@@ -650,6 +650,13 @@ func (r *run) clientReader(c *simnet.TCPConn) {
 					return
 				}
 				m.complete = true
+			}
+			if !m.complete && (r.originFault || (src.err != nil && src.err != io.EOF)) {
+				// a reset (by the faulty origin further down the pipeline, or by the proxy closing while pipelined requests
+				// were still arriving) may overtake or destroy data in flight: RFC 9112 §9.6, not asserted on
+				s.Probe("c16.obs.reset-before-all-responses")
+				lenientEnd()
+				return
 			}
 			if !m.complete {
 				r.fail("c16.response-mismatch{truncated}", "request #%d: the %s-framed response content ended after %d of %d bytes (%v)", cur, m.framing, len(m.body), len(rs.body), src.err)
@@ -764,9 +771,6 @@ func (r *run) checkRequestHead(rq *reqSpec, m *message) bool {
 	want := rq.target
 	if want == "" {
 		want = "/"
-		if rq.method == "OPTIONS" {
-			want = "*" // RFC 9112 §3.2.4: OPTIONS with an absolute-form target without path and query
-		}
 	}
 	got := parts[1]
 	if rest, ok := strings.CutPrefix(got, "http://"); ok { // absolute-form towards the origin is legal too
@@ -777,11 +781,11 @@ func (r *run) checkRequestHead(rq *reqSpec, m *message) bool {
 			got = "/" + t
 		}
 	}
+	if rq.target == "" && rq.method == "OPTIONS" && got == "*" {
+		got = "/" // OPTIONS with an absolute-form target without path: both "/" and RFC 9112 §3.2.4's "*" are accepted
+	}
 	if got != want {
 		cls := "c16.request-mismatch{target}"
-		if want == "*" {
-			cls = "c16.request-mismatch{target,options-asterisk}"
-		}
 		if r.fail(cls, "request #%d: client asked for %q (%s http://%s%s), origin received target %q", i, want, rq.method, rq.authority, rq.target, parts[1]) {
 			return false
 		}
@@ -890,6 +894,7 @@ func (r *run) origin(ln *simnet.TCPListener) {
 		return // never dialled
 	}
 	r.originConn = true
+	defer c.Close()
 	src := &byteSrc{s: s, r: c}
 	var sent int64
 	write := func(b []byte) bool {
@@ -898,6 +903,9 @@ func (r *run) origin(ln *simnet.TCPListener) {
 			if p.fragStyle != 0 {
 				n = min(n, util.Pick(s, []int{1, 3, 64, 1000, 4096, 1 << 20}))
 			}
+			// like a real server the origin gives up on a peer that stops reading (the relay's two directions are
+			// independent: once the response direction has ended nobody drains this connection any more)
+			c.SetWriteDeadline(time.Now().Add(20 * time.Second))
 			if _, err := c.Write(b[:n]); err != nil {
 				return false
 			}
@@ -1064,6 +1072,7 @@ func (r *run) origin(ln *simnet.TCPListener) {
 			// lingering close, as servers do (RFC 9112 §9.6): stop sending, swallow what is still in flight.
 			// (An immediate close would reset the connection and may destroy the response on its way.)
 			c.CloseWrite()
+			c.SetReadDeadline(time.Now().Add(20 * time.Second))
 			src.rest()
 			c.Close()
 			return
